@@ -19,6 +19,15 @@ def _layouts(ctx):
         for ok in keysets[len(on)]:
             for pk in keysets[len(pn)]:
                 yield on, ok, pn, pk
+    # chained levels: the object's last level is the parameter's first one (curves per (material, element) x loads per (element, scenario)); the parameter
+    # pairs 1:1 with the object's rows in the same order, in another order, or multiplies them (added after seed C13-a)
+    chain_obj = [[(0, 'x'), (1, 'y')], [(0, 'x'), (0, 'y'), (1, 'z')], [(1, 'y'), (0, 'x')]]
+    for ok in chain_obj:
+        elems = [k[1] for k in ok]
+        variants = [[(e, 5) for e in elems], [(e, 5) for e in reversed(elems)], [(e, c) for e in elems for c in (5, 6)], [(e, c) for c in (5, 6) for e in elems]]
+        for pk in variants:
+            yield ('a', 'b'), ok, ('b', 'c'), pk
+            yield ('b', 'c'), pk, ('a', 'b'), ok
 
 
 def _mk_index(names, keys):
@@ -34,7 +43,7 @@ def _key_value(names, keys):
     for k in keys:
         v = 0.0
         for i, x in enumerate(k):
-            v = v * 10 + (x if isinstance(x, int) else (7 if x == 'x' else 8))
+            v = v * 10 + (x if isinstance(x, int) else {'x': 7, 'y': 8, 'z': 9}[x])
         out.append(v + 1000.0)
     return out
 
@@ -51,7 +60,7 @@ def b_align(ctx):
     import pandas as pd
     from pylife.core.broadcaster import Broadcaster
     warnings.simplefilter('ignore')
-    ctx.bound = "object/parameter index names from {(a),(b),(None),(a,b),(b,a),(a,None),(a,c)}^2, 4 key sets per arity over {0,1,2} x {x,y} (sizes 1-4, shuffled), object in {Series, DataFrame(2 cols)}, parameter in {Series, DataFrame}; plus scalar and array parameters"
+    ctx.bound = "object/parameter index names from {(a),(b),(None),(a,b),(b,a),(a,None),(a,c)}^2, 4 key sets per arity over {0,1,2} x {x,y} (sizes 1-4, shuffled), object in {Series, DataFrame(2 cols)}, parameter in {Series, DataFrame}; chained layouts (a,b) x (b,c) pairing 1:1 in the same / another order or multiplying rows; plus scalar and array parameters"
     ctx.rule = "non-trivial: the two operands do not have the same index; distinct by (object kind, parameter kind, layout)"
     ctx.exhaustive = True
 
